@@ -379,7 +379,7 @@ func (s *Applier) verifyAnchoringTimeRange(from, until int64, anchor uint64) err
 
 func (s *Applier) getAnchorUntil(from, until int64) int64 {
 	if from != 0 && until == 0 {
-		return from + int64(s.MaxDeltaSize)
+		return from + int64(s.MaxOperationTimeDelta)
 	}
 
 	return until
